@@ -11,7 +11,7 @@ use vh::net::*;
 use vh::*;
 
 const HEADER: &str = "From SV Require Import Lib.Base Model.Pending.\nLocal Open Scope N_scope.";
-const T_MS: u64 = 300; // request timeout used in the scripts
+const T_MS: u64 = 1200; // request timeout used in the scripts
 
 /// same field order as the crate-private network::RequestResponseEnvelope
 #[derive(Serialize, Deserialize)]
@@ -88,7 +88,7 @@ fn coq_ev(e: &Ev) -> String {
     }
 }
 
-struct Pending { idx: u64, uuid: String, task: tokio::task::JoinHandle<Result<DhtNetworkResult, String>>, alive: bool }
+struct Pending { idx: u64, uuid: String, deadline: Instant, task: tokio::task::JoinHandle<Result<DhtNetworkResult, String>>, alive: bool }
 
 /// the DHT-table script
 async fn dht_script(wi: u64, mut rng: Rng) -> anyhow::Result<(Vec<Ev>, Vec<Option<(u64, u64)>>, Vec<u64>, serde_json::Value)> {
@@ -101,6 +101,13 @@ async fn dht_script(wi: u64, mut rng: Rng) -> anyhow::Result<(Vec<Ev>, Vec<Optio
     let mut last_send = Instant::now();
     let nsteps = rng.range(6, 16);
     for _ in 0..nsteps {
+        // requests that timed out on their own since the last step
+        for r in reqs.iter_mut().filter(|r| r.alive) {
+            if r.task.is_finished() {
+                let _ = (&mut r.task).await; r.alive = false;
+                evs.push(Ev::Finish(r.idx)); obs.push(None); sizes.push(999999);
+            }
+        }
         let choice = rng.below(12);
         let live: Vec<usize> = reqs.iter().enumerate().filter(|(_, r)| r.alive).map(|(i, _)| i).collect();
         if choice <= 2 || known_ids.is_empty() {
@@ -116,10 +123,18 @@ async fn dht_script(wi: u64, mut rng: Rng) -> anyhow::Result<(Vec<Ev>, Vec<Optio
             if !ok { anyhow::bail!("request never reached the wire"); }
             let uuid = c.seen.lock().unwrap()[before].1.clone();
             let idx = next_id; next_id += 1;
-            reqs.push(Pending { idx, uuid: uuid.clone(), task, alive: true });
+            reqs.push(Pending { idx, uuid: uuid.clone(), deadline: Instant::now() + Duration::from_millis(T_MS), task, alive: true });
             known_ids.push((idx, uuid, pi));
             evs.push(Ev::Send(idx, pi as u64 + 1, now, T_MS)); obs.push(None);
-            sizes.push(c.m.manager.verif_active_operations_len() as u64);
+            // (on a badly overloaded machine the request may already have timed out before we look)
+            let sz = c.m.manager.verif_active_operations_len() as u64;
+            sizes.push(if reqs.last().map(|r| r.task.is_finished()).unwrap_or(true) { 999999 } else { sz });
+            if std::env::var("C04_DEBUG").is_ok() && reqs.last().map(|r| r.task.is_finished()).unwrap_or(false) {
+                let r = reqs.last_mut().unwrap(); let res = (&mut r.task).await; eprintln!("early finish: {:?}", res); r.alive = false;
+            }
+            if std::env::var("C04_DEBUG").is_ok() {
+                eprintln!("send idx={idx} before={before} seen={:?} len={} finished={}", c.seen.lock().unwrap().iter().map(|x| x.1.clone()).collect::<Vec<_>>(), c.m.manager.verif_active_operations_len(), reqs.last().map(|r| r.task.is_finished()).unwrap_or(false));
+            }
         } else if choice <= 8 {
             // Deliver: id = a known id (pending or already finished) or a guessed one; sender = right peer, another peer, or a stranger
             let (mid, uuid, right_peer) = if rng.chance(1, 6) {
@@ -130,14 +145,18 @@ async fn dht_script(wi: u64, mut rng: Rng) -> anyhow::Result<(Vec<Ev>, Vec<Optio
                 3 => { let o = (right_peer + 1 + rng.below(c.peers.len() as u64 - 1) as usize) % c.peers.len(); (o as u64 + 1, c.peers[o].0.clone()) }
                 _ => (50, hex::encode(rng.bytes(32))),
             };
+            // never race a delivery against the request's own timeout
+            if reqs.iter().any(|r| r.alive && r.uuid == uuid && r.deadline < Instant::now() + Duration::from_millis(350)) { continue; }
             tag += 1;
             let resp = DhtNetworkMessage { message_id: uuid.clone(), source: "whoever".into(), target: None, message_type: DhtMessageType::Response,
                 payload: DhtNetworkOperation::Ping, result: Some(pong(tag)), timestamp: now_secs(), ttl: 3, hop_count: 1 };
             c.m.transport.verif_inject_frame(&from_id, SimNet::frame(&from_id, &resp)).await;
             quiesce(&c).await;
             evs.push(Ev::Deliver(mid, from_idx, tag));
-            // which task finished?
+            // which task finished?  A task that finished WITH a reply is the completion of this delivery;
+            // a task that ran into its own timeout during the window is an ordinary Finish.
             let mut completed: Option<(u64, u64)> = None;
+            let mut timed_out: Vec<u64> = vec![];
             for r in reqs.iter_mut().filter(|r| r.alive) {
                 if r.task.is_finished() {
                     let res = (&mut r.task).await;
@@ -147,15 +166,17 @@ async fn dht_script(wi: u64, mut rng: Rng) -> anyhow::Result<(Vec<Ev>, Vec<Optio
                             let t: u64 = responder.trim_start_matches("tag").parse().unwrap_or(0);
                             completed = Some((r.idx, t));
                         }
-                        _ => { completed = Some((r.idx, 0)); } // finished without a reply during a delivery window: reported as payload 0
+                        _ => timed_out.push(r.idx),
                     }
                 }
             }
             obs.push(completed);
             match completed {
-                Some((i, _)) => { sizes.push(999999); evs.push(Ev::Finish(i)); obs.push(None); sizes.push(c.m.manager.verif_active_operations_len() as u64); }
-                None => sizes.push(c.m.manager.verif_active_operations_len() as u64),
+                Some((i, _)) => { sizes.push(999999); evs.push(Ev::Finish(i)); obs.push(None); sizes.push(999999); }
+                None => sizes.push(if timed_out.is_empty() { c.m.manager.verif_active_operations_len() as u64 } else { 999999 }),
             }
+            for i in timed_out { evs.push(Ev::Finish(i)); obs.push(None); sizes.push(999999); }
+            if let Some(l) = sizes.last_mut() { *l = c.m.manager.verif_active_operations_len() as u64; }
         } else if choice == 9 && !live.is_empty() {
             // let one request time out
             let i = live[0];
@@ -211,7 +232,7 @@ fn coq_rout(o: &ROut) -> String {
     match o { ROut::None => "RNone".into(), ROut::Refused(i) => format!("RRefused {i}"), ROut::Complete(i, p) => format!("RComplete {i} {p}") }
 }
 
-struct RPending { idx: u64, task: tokio::task::JoinHandle<Result<Vec<u8>, String>>, alive: bool }
+struct RPending { idx: u64, uuid: String, deadline: Instant, task: tokio::task::JoinHandle<Result<Vec<u8>, String>>, alive: bool }
 
 /// the /rr/ table script.  `flood`: fill the table to its cap first.
 async fn rr_script(wi: u64, mut rng: Rng, flood: bool, cancel_flood: bool) -> anyhow::Result<(Vec<REv>, Vec<ROut>, Vec<u64>, serde_json::Value)> {
@@ -225,13 +246,19 @@ async fn rr_script(wi: u64, mut rng: Rng, flood: bool, cancel_flood: bool) -> an
         net.trace_snapshot().iter().filter(|e| e.op.starts_with("/rr/")).map(|e| (e.to.clone(), e.msg_id.clone())).collect()
     };
     let _ = rr_seen;
-    let timeout = Duration::from_millis(if flood { 4000 } else { T_MS });
+    let timeout = Duration::from_millis(if flood { 20000 } else { T_MS });
     let send = |pi: usize, c: &Ctx| {
         let tr = c.m.transport.clone(); let pid = c.peers[pi].0.clone();
         tokio::spawn(async move { tr.send_request(&pid, "vp", vec![1, 2, 3], timeout).await.map(|r| r.data).map_err(|e| e.to_string()) })
     };
     let nsteps = if flood { 262 } else { rng.range(6, 16) };
     for step in 0..nsteps {
+        for r in reqs.iter_mut().filter(|r| r.alive) {
+            if r.task.is_finished() {
+                let _ = (&mut r.task).await; r.alive = false;
+                evs.push(REv::Finish(r.idx)); obs.push(ROut::None); sizes.push(999999);
+            }
+        }
         let live: Vec<usize> = reqs.iter().enumerate().filter(|(_, r)| r.alive).map(|(i, _)| i).collect();
         let choice = if flood { if step < 258 { 0 } else { 3 + (step % 2) } } else { rng.below(12) };
         if choice <= 2 || known.is_empty() {
@@ -259,7 +286,7 @@ async fn rr_script(wi: u64, mut rng: Rng, flood: bool, cancel_flood: bool) -> an
                 sizes.push(c.m.transport.verif_active_requests_len().await as u64);
             } else {
                 let uuid = c.net.rr_ids.lock().unwrap()[wire_before].clone();
-                reqs.push(RPending { idx, task, alive: true });
+                reqs.push(RPending { idx, uuid: uuid.clone(), deadline: Instant::now() + timeout, task, alive: true });
                 known.push((idx, uuid, pi));
                 evs.push(REv::Send(idx, pi as u64 + 1)); obs.push(ROut::None);
                 sizes.push(c.m.transport.verif_active_requests_len().await as u64);
@@ -273,6 +300,7 @@ async fn rr_script(wi: u64, mut rng: Rng, flood: bool, cancel_flood: bool) -> an
                 3 => { let o = (right_peer + 1 + rng.below(c.peers.len() as u64 - 1) as usize) % c.peers.len(); (o as u64 + 1, c.peers[o].0.clone()) }
                 _ => (50, hex::encode(rng.bytes(32))),
             };
+            if reqs.iter().any(|r| r.alive && r.uuid == uuid && r.deadline < Instant::now() + Duration::from_millis(350)) { continue; }
             tag += 1;
             let env = Envelope { message_id: uuid, is_response: true, payload: vec![(tag % 250) as u8, (tag / 250) as u8] };
             let wire = Wire { protocol: "/rr/vp".into(), data: postcard::to_stdvec(&env)?, from: "whoever".into(), timestamp: now_secs() };
@@ -280,20 +308,24 @@ async fn rr_script(wi: u64, mut rng: Rng, flood: bool, cancel_flood: bool) -> an
             quiesce(&c).await;
             evs.push(REv::Deliver(mid, from_idx, tag));
             let mut completed = ROut::None;
+            let mut timed_out: Vec<u64> = vec![];
             for r in reqs.iter_mut().filter(|r| r.alive) {
                 if r.task.is_finished() {
                     let res = (&mut r.task).await; r.alive = false;
-                    completed = match res {
-                        Ok(Ok(d)) if d.len() == 2 => ROut::Complete(r.idx, d[0] as u64 + 250 * d[1] as u64),
-                        _ => ROut::Complete(r.idx, 0),
-                    };
+                    match res {
+                        Ok(Ok(d)) if d.len() == 2 => completed = ROut::Complete(r.idx, d[0] as u64 + 250 * d[1] as u64),
+                        Ok(Ok(_)) => completed = ROut::Complete(r.idx, 0),
+                        _ => timed_out.push(r.idx),
+                    }
                 }
             }
             obs.push(completed.clone());
             match completed {
-                ROut::Complete(i, _) => { sizes.push(999999); evs.push(REv::Finish(i)); obs.push(ROut::None); sizes.push(c.m.transport.verif_active_requests_len().await as u64); }
-                _ => sizes.push(c.m.transport.verif_active_requests_len().await as u64),
+                ROut::Complete(i, _) => { sizes.push(999999); evs.push(REv::Finish(i)); obs.push(ROut::None); sizes.push(999999); }
+                _ => sizes.push(if timed_out.is_empty() { c.m.transport.verif_active_requests_len().await as u64 } else { 999999 }),
             }
+            for i in timed_out { evs.push(REv::Finish(i)); obs.push(ROut::None); sizes.push(999999); }
+            if let Some(l) = sizes.last_mut() { *l = c.m.transport.verif_active_requests_len().await as u64; }
         } else if choice == 9 && !live.is_empty() && !flood {
             let i = live[0];
             let res = tokio::time::timeout(Duration::from_secs(6), &mut reqs[i].task).await;
